@@ -5,6 +5,9 @@ from ..adapters.resources import FACETS_CACHE
 LENIENT = [
     'C12: identity of a returned object is compared with the products of the harness load() by `is`; for kinds whose '
     'values are interned singletons (None, 0, "") two loads cannot be told apart by identity, the load counter can',
+    'C12: loaded values: None, 0, "", [], an object with raising __bool__ / always-true __eq__, and values of the library\'s own '
+    'types (a ResourceMap holding a handle, a Handle, a World); the kinds rotate from behaviour to behaviour, so an edge of the '
+    'graph meets three of the eight in the every-edge passes',
     'C12: tree-shape facets (paths, back-links) belong to C11: a divergence limited to them abandons the path',
     "C12: Loop.switch's clears are decided with the loop properties (C13), not here",
 ]
@@ -45,7 +48,8 @@ def run(res):
     pre = rc.dumps_in_parallel(res, cfgs, inv, prop)
     join()
     for name, (c, ov) in cfgs.items():
-        # one handle: every edge under three value kinds ('' / [] / weird; None and 0 in the later passes)
+        # one handle: every edge under three value kinds (which three rotates with the behaviour: all eight kinds,
+        # the library-typed ones included, occur in every pass)
         rc.check_and_replay(res, name, c, ov, inv, prop, own=FACETS_CACHE, probe=False, depth_all=3,
                             walks=3000 if thorough else 1000, walk_len=30, pre=pre[name],
                             shifts=(0, 1, 2, 3, 4) if thorough else (2, 3, 4) if name == 'c12_static' else (0,))
